@@ -41,7 +41,8 @@ Definition guard_skip {A} (g : guard) (cond : bool) (skip : res A) (absent : res
 
 (** ---- primitive kinds of the modelled universe ---- *)
 Inductive lkind :=
-| LInt | LText | LBool | LDateTime | LDate | LTime | LDur | LBytes | LEnum (vals : list text).
+| LInt (max_str_len : ext)    (* Integer; a customised Integer has max_str_len = total_digits + 2 = inf *)
+| LText | LBool | LDateTime | LDate | LTime | LDur | LBytes | LEnum (vals : list text).
 
 (** native values, as far as validation looks at them *)
 Inductive lval :=
@@ -52,8 +53,8 @@ Inductive lval :=
 (** ---- readers on text (the from_unicode handler of each kind, for a non-empty str) ---- *)
 
 (** integer_from_bytes *)
-Definition read_int (s : text) : res lval :=
-  if negb (ext_leb (Fin (len s)) (na_max_str_len attrs_Integer)) then vfault
+Definition read_int (msl : ext) (s : text) : res lval :=
+  if negb (ext_leb (Fin (len s)) msl) then vfault
   else tryS (nth_try 0 integer_from_bytes_tries)
          (match int_of_text s with Some z => Ret (VInt z) | None => Raise EValueError [] end).
 
@@ -150,7 +151,7 @@ Definition read_enum (g : guard) (vals : list text) (s : text) : res lval :=
     Date to date_from_unicode_iso; [ge] is the membership guard of the calling function *)
 Definition read_leaf (soap : bool) (ge : guard) (k : lkind) (s : text) : res lval :=
   match k with
-  | LInt => read_int s
+  | LInt msl => read_int msl s
   | LText => Ret (VText s)
   | LBool => read_bool s
   | LDateTime => read_datetime s
@@ -167,15 +168,18 @@ Definition vstring (k : lkind) (nillable : bool) (txt : option text) : bool :=
   match txt with
   | None => match k with
             | LEnum _ => false                          (* None in cls.__values__ *)
-            | LInt => validate_string_none_Integer
+            | LInt msl => validate_string_none_Integer
                         {| na_nillable := nillable; na_gt := na_gt attrs_Integer; na_ge := na_ge attrs_Integer;
                            na_lt := na_lt attrs_Integer; na_le := na_le attrs_Integer; na_values := [];
-                           na_max_str_len := na_max_str_len attrs_Integer; na_min_bound := None; na_max_bound := None |}
+                           na_max_str_len := msl; na_min_bound := None; na_max_bound := None |}
             | _ => nillable
             end
   | Some s => match k with
               | LEnum vals => text_in s vals
-              | LInt => validate_string_Integer attrs_Integer (len s)
+              | LInt msl => validate_string_Integer
+                        {| na_nillable := nillable; na_gt := na_gt attrs_Integer; na_ge := na_ge attrs_Integer;
+                           na_lt := na_lt attrs_Integer; na_le := na_le attrs_Integer; na_values := [];
+                           na_max_str_len := msl; na_min_bound := None; na_max_bound := None |} (len s)
               | _ => true
               end
   end.
